@@ -53,6 +53,23 @@ CLAIMED['C02'] = dict(
     technique='CBMC on mechanically extracted real functions: CHECK-encoded contracts from every invariant state, loop-free (complete) per element size',
     design='5/C02')
 
+CLAIMED['C05'] = dict(
+    level='proof',
+    text='Per-function accounting deltas on the real text: device::malloc (core) with serial::device::malloc and serial::buffer::malloc/wrapMemory inlined, device::wrapMemory, the destructor chain serial::buffer::~buffer + ~modeBuffer_t and ~modeMemory_t: '
+         'memoryAllocated() changes by exactly accounted(buffer) = isWrapped ? 0 : size on creation and by its negative on destruction, maxMemoryAllocated() is the running maximum, device-owned storage freed exactly once; '
+         'for every entry count, element size, source pointer and use_host_pointer/own_host_pointer combination (loop-free, complete). The history-level statement follows by induction; tests only check a few fixed sequences.',
+    note='trusted: CBMC C++ front end, flattened skeletons, nested deletes recorded and each destructor verified in its own group. Assumes |entries| < 2^40. Not reached: clone(), pool growth accounting (C04 unit), other backends.',
+    technique='CBMC on mechanically extracted real functions: CHECK-encoded per-function delta contracts (ghost accounted size)',
+    design='5/C05')
+CLAIMED['C14'] = dict(
+    level='proof',
+    text='22 primitive operator functions, to<T>() and the scalar constructors C-extracted each run; for every (operator, operand-type pair) with concrete tags and fully symbolic 64-bit operand bits the result type and value equal what CBMC computes for the C expression itself '
+         '(spec from the C/C++ standard via _Generic, definedness as guard); binaryOpNode/ternaryOpNode/leftUnaryOpNode::evaluate extracted through the C++ front end against ghost children counting evaluations (short-circuit, exactly one ?: branch). '
+         'Quick: 7x7 literal-reachable types; thorough: 11x11 + fidelity vectors. Tests sample a handful of constants.',
+    note='trusted: CBMC C/C++ front ends, SAT + cvc5 back ends, C extraction rules (references, namespaces, _Generic constructor selection), CBMC IEEE-754 model. Known findings: bool with & | ^ ~ (pinned by repo tests), ?: result type, 8/16-bit mixed signedness. Not done: literal typing (load/loadHex/loadBinary), compound-assign operators.',
+    technique='CBMC contracts on mechanically C-extracted real functions, one obligation group per operator x type pair; SMT (cvc5) for * / % and floats',
+    design='5/C14')
+
 PENDING_REASON = 'check not built yet in this session (planned, see DESIGN.md section 5); not claimed until it runs'
 
 
